@@ -19,6 +19,7 @@ from sim.seams import (LineInterrupter, ScriptedGenerator, SimInterrupt, Warning
                        ambient_perturb, import_dreye, own_entropy)
 
 ID = "C13"
+USES_PRISTINE = True
 PANEL_PER_MODE = 2
 PER_RUN_CAP = 600
 WALL_CAP = {"quick": 300, "thorough": 3300}
@@ -292,7 +293,8 @@ def generate(rs, mode, tier, index):
                 op["call"].get("repeat_of", 10 ** 9) < last_mut:
             op["call"].pop("repeat_of")     # the system changed in between
     return {"check": ID, "run_seed": rs, "mode": mode, "dim": dim, "clouds": clouds,
-            "sys": sysd, "ops": ops, "cut_seed": rng.integers(0, 2 ** 31)}
+            "sys": sysd, "ops": ops, "cut_seed": rng.integers(0, 2 ** 31),
+            "pristine": rng.coin(0.3)}
 
 
 # ----------------------------------------------------------------------------
@@ -409,6 +411,25 @@ def make_engine(spec, dim_plus_1):
     return spec
 
 
+def pristine_sample(cloud, sysd, c, dim):
+    """Runs in a forked child of a process that imported dreye and never called it: the same
+    sampling request, on an estimator built directly in the current registered state."""
+    setup()
+    import warnings as _w
+    _w.filterwarnings("ignore")
+    seed = make_seed(c["seed"])
+    if c["t"] == "est":
+        est = _dreye.ReceptorEstimator(sysd["F"], domain=1.0, K=sysd["K"],
+                                       baseline=sysd["baseline"])
+        est.register_system(sysd["S"], lb=sysd["lb"], ub=sysd["ub"])
+        d_out = sysd["n_rec"]
+        eng = make_engine(c["engine"], (d_out if c.get("l1") is None else d_out - 1) + 1)
+        return np.asarray(est.sample_in_gamut(n=c["n"], seed=seed, engine=eng, l1=c.get("l1"),
+                                              relative=c.get("relative", True)))
+    return np.asarray(_dreye.sample_in_hull(cloud, c["n"], seed=seed,
+                                            engine=make_engine(c["engine"], dim + 1)))
+
+
 def n_class(n):
     return "1" if n == 1 else ("small" if n <= 7 else ("mid" if n <= 1000 else "large"))
 
@@ -439,6 +460,7 @@ def execute(plan):
                                        baseline=sysd["baseline"])
         est.register_system(sysd["S"], lb=sysd["lb"], ub=sysd["ub"])
     zmax = [0.0]
+    pristine_left = [3]
     results = {}       # op index -> (canonical bytes, array)
     violation = None
     steps = 0
@@ -542,7 +564,8 @@ def execute(plan):
                 Pm = ref_clouds[c["t"]]        # oracles use the caller's original cloud
                 d_out = dim
                 eng = make_engine(c["engine"], dim + 1)
-                # the *same* array object is handed to every call on this cloud
+                # the *same* array object is handed to every call on this cloud (the documented
+                # argument type is an ndarray: nested lists are rejected by the unchanged code)
                 out = call(_dreye.sample_in_hull, clouds[c["t"]], n, seed=seed, engine=eng)
             log.add(oi, "call", out)
             sk = seed_kind(c["seed"])
@@ -571,6 +594,23 @@ def execute(plan):
             if not np.all(np.isfinite(Sm)):
                 raise Violation(ID, "non_finite_sample", f"non-finite sample for {c}", call=c,
                                 op=oi)
+            if plan.get("pristine") and n <= 1000 and pristine_left[0] > 0 \
+                    and seed_kind(c["seed"]) != "scripted":
+                # the same request where nothing was ever requested before (module-level
+                # state left behind by earlier calls of this run cannot reach it)
+                from sim import pristine
+                pristine_left[0] -= 1
+                ref = pristine.client().call("checks.c13", "pristine_sample",
+                                             None if c["t"] == "est" else ref_clouds[c["t"]],
+                                             sysd, {k_: v_ for k_, v_ in c.items()}, dim)
+                bump("pristine_process_references")
+                if ref.shape != Sm.shape or not np.allclose(ref, Sm, rtol=1e-10, atol=1e-12 * (
+                        1.0 + float(np.max(np.abs(Sm))))):
+                    raise Violation(ID, "differs_from_pristine_process",
+                                    f"{c} returned other samples than the same request in a "
+                                    f"process where dreye was never called before (max |diff| "
+                                    f"{float(np.max(np.abs(ref - Sm))) if ref.shape == Sm.shape else 'shape'})",
+                                    call=c, op=oi)
             # ---- membership ----
             if c["t"] == "est":
                 Q, A, lb, ub = gamut_vertices(sysd, rel)
